@@ -134,11 +134,13 @@ def replay(res, pid, path):
     res.add_samples([m.group(0)])
 
 
-def run_lockstep(res, pid, seed, tier):
-    """schedule-lockstep tie (S): the real allocator runs mode `lock` of s_conc.c under the deterministic scheduler and logs
-    every atomic access to page->xthread_free, page->xheap and heap->thread_delayed_free (abstract old -> new value); the
-    extracted Coq model Model/TFree.v must be able to take the same step of the same thread with the same values, and its
-    boolean invariant inv_b is evaluated on the synchronised states (ocaml mode tfree-lockstep)."""
+def run_lockstep(res, pid, seed, tier, mode="lock", key="corr:tfree-lockstep", kinds=()):
+    """schedule-lockstep tie (S): the real allocator runs mode `lock` (the tfree program) or `lockheap` (the heap program: mi_heap_new /
+    mi_heap_delete / mi_heap_collect of per-thread extra heaps while other threads free into their pages) of s_conc.c under the
+    deterministic scheduler and logs every atomic access to page->xthread_free, page->xheap and heap->thread_delayed_free (abstract
+    old -> new value); the extracted Coq model Model/TFree.v must be able to take the same step of the same thread with the same values,
+    and its boolean invariant inv_b is evaluated on the synchronised states (ocaml mode tfree-lockstep).
+    kinds: oracle kinds of the harness that count as a failing input when the mismatching run also reports one of them."""
     exe = build(res)
     if exe is None:
         return None
@@ -147,32 +149,48 @@ def run_lockstep(res, pid, seed, tier):
         res.violation("model-build", "extracted model does not build: " + txt[-1200:]); return None
     big = tier == "thorough"
     jobs = [(seed * 1000 + i, 2 + i % 3, (150 if big else 80) if i % 2 else 40) for i in range(60 if big else 16)]
-    stats = collections.Counter(); first_mismatch = None
+    stats = collections.Counter(); hist = collections.Counter(); first_mismatch = None
     def one(j):
         sd, nt, nops = j
-        rc, out = run_one(exe, "lock", sd, nt, nops, log=True, timeout=180)
+        rc, out = run_one(exe, mode, sd, nt, nops, log=True, timeout=180)
         logtxt = "\n".join(l for l in out.splitlines() if not l.startswith("END") and not l.startswith("V "))
         rc2, mout = vlib.model_replay("tfree-lockstep", logtxt + "\n", timeout=600)
-        return j, out, mout
+        return j, rc, out, mout
+    tag = "lockstep" if mode == "lock" else mode
     with concurrent.futures.ThreadPoolExecutor(max_workers=int(vlib.JOBS)) as ex:
-        for j, out, mout in ex.map(one, jobs):
-            stats["lockstep_logs"] += 1
-            m = re.search(r'STAT tfree-lockstep lines=(\d+) atomic_steps=(\d+) inv_b_checks=(\d+)', mout)
+        for j, rc, out, mout in ex.map(one, jobs):
+            stats[tag + "_logs"] += 1
+            m = re.search(r'STAT tfree-lockstep lines=(\d+) atomic_steps=(\d+) inv_b_checks=(\d+) max_state_set=(\d+) final_state_set=(\d+)(?: hist=(\S*))?', mout)
             if m:
-                stats["lockstep_atomic_steps"] += int(m.group(2)); stats["lockstep_inv_b_checks"] += int(m.group(3))
+                stats[tag + "_atomic_steps"] += int(m.group(2)); stats[tag + "_inv_b_checks"] += int(m.group(3))
+                stats[tag + "_max_state_set"] = max(stats[tag + "_max_state_set"], int(m.group(4)))
+                for kv in (m.group(6) or "").split(","):
+                    if ":" in kv:
+                        k, v = kv.rsplit(":", 1); hist[k] += int(v)
+            for l in out.splitlines():
+                if l.startswith("A "):
+                    f = l.split()
+                    if len(f) > 2 and f[2] in ("delete", "newheap", "collect", "malloc", "free", "give"): stats[tag + "_calls_" + f[2]] += 1
             mm = [l for l in mout.splitlines() if l.startswith("MISMATCH")]
             d = re.search(r'DONE (\d+) (\d+)', mout)
             if mm or not d or int(d.group(2)) != 0:
-                stats["lockstep_mismatching_logs"] += 1
-                if first_mismatch is None:
-                    first_mismatch = (j, mm[0] if mm else mout[-300:])
+                stats[tag + "_mismatching_logs"] += 1
+                v, _ = parse(rc, out)
+                v = [(k, t) for k, t in v if k in kinds]
+                if first_mismatch is None or (v and not first_mismatch[2]):
+                    first_mismatch = (j, mm[0] if mm else mout[-300:], v)
     if first_mismatch:
-        (sd, nt, nops), text = first_mismatch
+        (sd, nt, nops), text, v = first_mismatch
         # a model/implementation disagreement on the decomposition into atomic steps; is there also a failing input?
-        res.violation("corr:tfree-lockstep", "the interleaving model cannot follow the real allocator's atomic steps (schedule: build/s_conc lock %d %d %d log): %s"
-                      % (sd, nt, nops, text[:400]), witness=None, replay_name="%s_lockstep_%d.sched" % (pid, sd))
+        wit = None
+        if v:
+            wit = "# schedule replay (deterministic): build/s_conc %s %d %d %d\n# oracle: %s %s" % (mode, sd, nt, nops, v[0][0], v[0][1])
+        res.violation(key, "the interleaving model cannot follow the real allocator's atomic steps (schedule: build/s_conc %s %d %d %d log): %s%s"
+                      % (mode, sd, nt, nops, text[:400], (" ; the same run also fails the oracle `%s`: %s" % v[0]) if v else ""),
+                      witness=wit, replay_name="%s_%s_%d.sched" % (pid, tag, sd))
     d = res.cov.setdefault("input_distribution", {})
-    d["lockstep"] = dict(stats)
-    res.cov["traces_validated_against_impl"] += stats["lockstep_logs"]
-    res.cov["evaluations"] += stats["lockstep_atomic_steps"]
+    d[tag] = dict(stats)
+    d[tag + "_model_transitions"] = dict(sorted(hist.items()))
+    res.cov["traces_validated_against_impl"] += stats[tag + "_logs"]
+    res.cov["evaluations"] += stats[tag + "_atomic_steps"]
     return stats
